@@ -96,7 +96,7 @@ def run(chk, replay=None):
     # ---------------------------------------------------------------- gridded tests
     start, end = datetime.datetime(2010, 1, 1), datetime.datetime(2011, 1, 1)
 
-    def gridded_world(nc, nb, perm=None, seed=0, via_file=False, mirror=False):
+    def gridded_world(nc, nb, perm=None, seed=0, via_file=False, mirror=False, quiet=False):
         r = random.Random(seed)
         org = [[float(i % 4), float(i // 4)] for i in range(nc)]
         data = [[10 ** r.uniform(-3, 0.5) for _ in range(nb)] for _ in range(nc)]
@@ -112,6 +112,9 @@ def run(chk, replay=None):
                 flat2[q], flat2[q + 1] = flat[q + 1], flat[q]
             data = [flat[c * nb:(c + 1) * nb] for c in range(nc)]
             data2 = [flat2[c * nb:(c + 1) * nb] for c in range(nc)]
+        if quiet:
+            # one bin carries 1e-12 of the rate of the others (and holds an observed event): wherever it is stored
+            data[0][0] = data2[0][0] = 1e-12
         if perm is None:
             perm = list(range(nc))
         mags = numpy.array([4.0 + b for b in range(nb)])
@@ -168,7 +171,10 @@ def run(chk, replay=None):
             pairs_ = [(q // nb, q % nb, rng.randrange(6)) for q in (0, 1, 1, 0, 2, 3, 0) if q < nc * nb]
             events = (pairs_ + events)[:max(n_ev, len(pairs_))]
             n_ev = len(events)
-        org, fa, fb, mags = gridded_world(nc, nb, seed=chk.seed * 100 + t, mirror=mirror)
+        quiet = t in (1, 3, 7) and not mirror
+        if quiet:
+            events[0] = (0, 0, 0)
+        org, fa, fb, mags = gridded_world(nc, nb, seed=chk.seed * 100 + t, mirror=mirror, quiet=quiet)
         ident = list(range(n_ev))
         p_ev = ident[:]
         while p_ev == ident:
@@ -180,8 +186,10 @@ def run(chk, replay=None):
             # orderly re-orderings of the complete 4 x 2 lattice: column by column, each column north to south / south to north
             # (a random shuffle practically never lists a complete grid in such an order)
             p_cell = [[4, 0, 5, 1, 6, 2, 7, 3], [0, 4, 1, 5, 2, 6, 3, 7], [7, 3, 6, 2, 5, 1, 4, 0]][(t // 2) % 3]
-        _, fa_p, fb_p, _ = gridded_world(nc, nb, perm=p_cell, seed=chk.seed * 100 + t, via_file=(t % 2 == 1), mirror=mirror)
+        _, fa_p, fb_p, _ = gridded_world(nc, nb, perm=p_cell, seed=chk.seed * 100 + t, via_file=(t % 2 == 1), mirror=mirror, quiet=quiet)
         for name, fn, analytic, simfree in GT:
+            if quiet and not name.startswith('poisson'):
+                continue      # (the binary samplers draw until the quiet bin is hit: about 1e12 draws)
             base = guarded_timeout(30, fn, fa, fb, gridded_catalog(org, events, ident, fa.region, mags))
             if t % 2 == 0:
                 # the re-ordering done on a catalog object that was evaluated before (events re-stored through the public
